@@ -548,9 +548,54 @@ pub fn gen_d04(rng: &mut Rng, em: &mut Emitter) {
     }
 }
 
+/// Responses sized exactly around the limits (C04 T1): one opaque record whose RDATA length is tuned
+/// so that the complete response is limit-2 … limit+2 octets, without EDNS (limit 512) and with
+/// EDNS payload sizes 513 / 700 / 1232 (the OPT record counts: 11 octets).
+pub fn gen_boundary(rng: &mut Rng, em: &mut Emitter) {
+    let apex = below(&[b"edge"], &[0]);
+    let owner = below(&[b"w"], &apex);                     // 8 octets
+    for (edns, limit) in [(None, 512usize), (Some(513u16), 513), (Some(700), 700), (Some(1232), 1232), (Some(0), 512), (Some(65535), 4096)] {
+        for delta in [-2i64, -1, 0, 1, 2] {
+            // header 12 + question (owner + 4) + record (pointer 2 + 10 + rdlen) + OPT 11
+            let fixed = 12 + owner.len() + 4 + 2 + 10 + if edns.is_some() { 11 } else { 0 };
+            let total = (limit as i64 + delta) as usize;
+            if total <= fixed { continue; }
+            let rdlen = total - fixed;
+            let recs = vec![Rec { owner: owner.clone(), ty: 65280, ttl: 5, rdata: (0..rdlen).map(|i| i as u8).collect() }];
+            let zs = vec![ZoneCfg { kind: 'L', apex: apex.clone(), class: 1, glue_wide: false, recs }];
+            let Some(server) = make_server(&zs, 4096) else { continue };
+            let cat = enc_catalog(&zs);
+            let req = query(rng, &owner, 65280, 1, edns);
+            emit(em, &server, 4096, &cat, &req, true);
+        }
+    }
+}
+
+/// A response that does not fit 65 535 octets: the TCP path of the Truncation epilogue
+/// (SERVFAIL, never TC). `n` TXT records of 61 octets each.
+pub fn gen_tcp_overflow(rng: &mut Rng, em: &mut Emitter, n: usize) {
+    let apex = below(&[b"huge"], &[0]);
+    let owner = below(&[b"t"], &apex);
+    let mut recs = Vec::new();
+    for i in 0..n {
+        let mut rd = vec![60u8, (i >> 8) as u8, i as u8];
+        rd.extend(std::iter::repeat(b'x').take(58));
+        recs.push(Rec { owner: owner.clone(), ty: 16, ttl: 5, rdata: rd });
+    }
+    let zs = vec![ZoneCfg { kind: 'L', apex, class: 1, glue_wide: false, recs }];
+    let Some(server) = make_server(&zs, 1232) else { return };
+    let cat = enc_catalog(&zs);
+    for edns in [None, Some(4096u16)] {
+        let req = query(rng, &owner, 16, 1, edns);
+        emit(em, &server, 1232, &cat, &req, true);
+    }
+}
+
 pub fn gen(rng: &mut Rng, thorough: bool, em: &mut Emitter) {
     gen_d04(rng, em);
     gen_corner(rng, em);
+    gen_boundary(rng, em);
+    gen_tcp_overflow(rng, em, 900);
     // scenario zones, alone or nested in a catalog
     let n_zone = if thorough { 4000 } else { 120 };
     let per = if thorough { 60 } else { 30 };
